@@ -88,8 +88,13 @@ def _compare(where, on, off, sources):
 BOUNDARY = {"macro", "callblock", "setblock", "filter", "include", "import", "from", "block"}
 
 
-def check_esc(case):
+def check_esc(case, known=False):
     templates, data = case["templates"], case["data"]
+    if not known:
+        if escgen.n1_class(templates):
+            raise core.Excluded()  # N1 / F48 (never generated in neutral mode)
+        if escgen.has_blocks(templates) and any(m["m"] in ("region", "volatile", "segments") for m in case["modes"]):
+            raise core.Excluded()  # N2 / F49
     labels = set()
     has_hcat = False
     for n in escgen.walk(templates):
@@ -113,9 +118,8 @@ def check_esc(case):
     differ = False
     allowed = _allowed()
     for mode in case["modes"]:
-        if mode["m"] == "volatile" and has_hcat:
-            labels.add("f5_not_run")
-            continue
+        if mode["m"] == "volatile" and has_hcat and not known:
+            raise core.Excluded()  # known finding F5
         s_on, entry, esrc = c15.mode_sources(templates, mode, True)
         on = c15.stream(c15.make_env(s_on, mode, True), entry, esrc, data, allowed)
         s_off, entry, esrc = c15.mode_sources(templates, mode, False)
@@ -306,8 +310,7 @@ def check_stmt(case):
             s_on, s_off = {"main": "{% autoescape true %}" + src + "{% endautoescape %}"}, {"main": src}
         elif m == "volatile":
             if "cat" in {x[0] for s in stmt.walk(prog) for e in stmt.stmt_exprs(s) for x in stmt.walk_expr(e)}:
-                labels.add("f5_not_run")
-                continue
+                raise core.Excluded()  # known finding F5 (a ~ may have a fragment operand)
             s_on = s_off = {"main": "{% autoescape fl %}" + src + "{% endautoescape %}"}
         else:
             raise core.HarnessError("stmt cases run under static / region / volatile")
@@ -367,7 +370,7 @@ def esc_cases(size):
                      escgen.programs(neutral=True, size=size), escgen.datas(), c15.modes())
 
 
-_STMT_MODES = st.sampled_from([[{"m": "static"}], [{"m": "static"}], [{"m": "region"}], [{"m": "volatile", "flag": 1}], [{"m": "volatile", "flag": "y"}]])
+_STMT_MODES = st.sampled_from([[{"m": "static"}], [{"m": "static"}], [{"m": "static"}], [{"m": "region"}], [{"m": "region"}], [{"m": "volatile", "flag": "y"}]])
 
 
 def stmt_cases(thorough):
@@ -414,17 +417,4 @@ def floors(total, tier):
 def check_known(entry):
     """Known-finding replay: F5 cases are executed (the generated search skips them)."""
     case = entry["case"]
-    if entry.get("id") == "F5":
-        t = dict(case, templates=_rename_hcat(case["templates"]))
-        return check_esc(t)
-    return check_case(case)
-
-
-def _rename_hcat(node):
-    if isinstance(node, dict):
-        return {k: _rename_hcat(v) for k, v in node.items()}
-    if isinstance(node, list):
-        if len(node) == 3 and node[0] == "hcat":
-            return ["bin", "~", _rename_hcat(node[1]), _rename_hcat(node[2])]
-        return [_rename_hcat(x) for x in node]
-    return node
+    return check_esc(case, known=True) if case["kind"] == "esc" else check_case(case)
